@@ -168,6 +168,7 @@ func (w *World) setupPackage(pkg *ssa.Package) {
 			w.globals[g] = &cell
 		}
 	}
+	w.loadEmbeds(pkg)
 }
 
 // runInit executes the package initialiser of pkg (which calls its imports' init first).
@@ -322,13 +323,26 @@ func (w *World) query(extra *Term, wantModel bool) (SatResult, Model) {
 	sort.Strings(vars)
 	var res SatResult
 	var m Model
-	if bits := sliceBits(inSet); w.feasQuery && bits <= 8 {
+	var ckey string
+	if w.feasQuery && wantModel {
+		ckey = qcKey(terms)
+	}
+	hit := false
+	if ckey != "" {
+		res, m, hit = w.qcGet(ckey)
+	}
+	if hit {
+		// identical sliced query answered before on this worker
+	} else if bits := sliceBits(inSet); w.feasQuery && bits <= 8 {
 		// branch-feasibility query over at most 8 free bits: decided by complete enumeration of the
 		// assignments with the term evaluator (exact; assertion queries always go to the SMT solver)
 		res, m = enumerate(terms, inSet)
 		atomic.AddInt64(&gStats.Enumerated, 1)
 	} else {
 		res, m = w.solver.CheckSet(terms, vars, wantModel)
+		if ckey != "" {
+			w.qcPut(ckey, res, m)
+		}
 	}
 	if res == ResSat && wantModel {
 		merged := make(Model, len(r.witness)+len(m))
@@ -425,6 +439,7 @@ func (w *World) branchV(c *Term, val uint64) bool {
 	case ResUnsat:
 		implied = true
 	case ResSat:
+		noteFork(c)
 		tr := make([]dec, len(r.taken)+1)
 		copy(tr, r.taken)
 		tr[len(r.taken)] = dec{b: !side, v: val, fp: w.fingerprint(c)}
